@@ -561,6 +561,9 @@ func TestC07(t *testing.T) {
 			&srvScenario{Concurrency: 2, DeadCtxAt: 1, Ops: []envOp{{Kind: "send", Arg: c07Mark(0, reqCall(1, "c1", "ok"), reqCall(2, "Hc2", "ok"))}, {Kind: "send", Arg: c07Mark(1, reqCall(1, "c3", "ok"))}}},
 			&srvScenario{Concurrency: 3, DeadCtxAt: 2, Ops: []envOp{{Kind: "send", Arg: c07Mark(0, reqCall(2, "Hc1", "ok"), reqCall(1, "c2", "ok"))}, {Kind: "send", Arg: c07Mark(1, reqCall(1, "c3", "ok"))}, {Kind: "send", Arg: c07Mark(2, reqCall(1, "c4", "ok"))}}},
 			&srvScenario{Concurrency: 2, Ops: []envOp{{Kind: "send", Arg: c07Mark(0, `{"jsonrpc":"2.0","id":7,"params":["c1","ok"]}`)}, {Kind: "send", Arg: c07Mark(1, reqCall(7, "c2", "ok"))}}},
+			// a batch, fully answered, followed by NON-batch requests that reuse its ids one after the other
+			&srvScenario{Concurrency: 2, AutoRelease: true, Ops: []envOp{{Kind: "send", Arg: c07Mark(0, reqCall(1, "c1", "ok"), reqCall(2, "c2", "err"))}, {Kind: "send", Arg: reqCall(1, "c3", "ok")}, {Kind: "send", Arg: reqCall(2, "c4", "ok")}, {Kind: "send", Arg: reqCall(1, "c5", "ok")}}},
+			&srvScenario{Concurrency: 2, Ops: []envOp{{Kind: "send", Arg: c07Mark(0, reqCall(1, "c1", "ok"), reqCall(2, "c2", "ok"))}, {Kind: "send", Arg: reqCall(2, "c3", "ok")}, {Kind: "send", Arg: c07Mark(1, reqCall(2, "c4", "ok"))}, {Kind: "send", Arg: reqCall(1, "c5", "ok")}}},
 			// the reply to a batch is lost in transport: its calls are over, their ids free again
 			&srvScenario{Concurrency: 2, SendFailAt: 1, Ops: []envOp{{Kind: "send", Arg: c07Mark(0, reqCall(1, "c1", "ok"), reqCall(2, "c2", "err"))}, {Kind: "send", Arg: c07Mark(1, reqCall(1, "c3", "ok"))}, {Kind: "send", Arg: c07Mark(2, reqCall(2, "c4", "ok"))}}},
 			&srvScenario{Concurrency: 2, Ops: []envOp{{Kind: "send", Arg: c07Mark(0, `{"jsonrpc":"2.0","id":"x","method":"m","params":["c1","ok"],"zz":1}`)}, {Kind: "send", Arg: c07Mark(1, reqCall("x", "c2", "ok"))}}},
